@@ -1,7 +1,7 @@
 (* C25 — Channel.sendall / sendall_stderr either hand every byte to the transport or raise;
    they never return early and never loop forever.
    Property statements only; every proof is `exact <lemma from Proofs/C25_proofs.v>`. *)
-From PV Require Import Bytes C25 C25_proofs.
+From PV Require Import Bytes C25_gen C25 C25_proofs.
 Open Scope Z_scope.
 
 (* For every channel state, data, stream, environment (events between and during the calls of
@@ -80,6 +80,16 @@ Theorem C25_unrepaired_loop_diverges :
     sendall_v0 fuel stderr c s [] [] = mkFinal Fuel c [] s.
 Proof. exact v0_diverges. Qed.
 Print Assumptions C25_unrepaired_loop_diverges.
+
+(* the message numbers and the per-packet overhead (max packet - 64) written in the model are
+   the ones gen/c25.py reads from common.py / channel.py on every run *)
+Theorem C25_source_constants :
+  MSG_CHANNEL_DATA = src_msg_channel_data /\
+  MSG_CHANNEL_EXTENDED_DATA = src_msg_channel_extended_data /\
+  take_window (mkChan false false 1000 (src_packet_overhead + 1) None) 1000
+    = WSize 1 (mkChan false false 999 (src_packet_overhead + 1) None).
+Proof. exact source_constants. Qed.
+Print Assumptions C25_source_constants.
 
 (* non-vacuity: a well-formed channel with a 5-byte window and a 7-byte packet limit sends 12
    bytes in two chunks while the peer re-opens the window; then the same data after
